@@ -247,11 +247,11 @@ CHECKS = {
     "C19": dict(
         engine="E4-stores",
         technique="Coq proof over functions REGENERATED from /repo/src by a fail-closed Python-ast translator (pure.py) and proved equal to the model + Coq proof (precedence characterisation, print/parse and join/split round trips, app-frame iff) + in-Coq correspondence with ConfigService/GRPCService/LongPoll/is_app_frame under controlled environments",
-        text="11 Coq theorems over Config.v: resolution precedence (code > env-backed default > DEEP_<KEY> > absent, functions "
+        text="13 Coq theorems over Config.v: resolution precedence (code > env-backed default > DEEP_<KEY> > absent, functions "
              "called), 'same from code or environment' for the typed uses (poll interval via decimal print/parse round trip, "
              "booleans via str2bool(str(v)), prefix lists via join/split round trip, no blank prefix ever), app-frame iff "
              "and short-path law, interpreter files never app frames. Tied to the code by running the real services under "
-             "generated environments (deep.config re-imported each time) and comparing inside Coq. Tie T2: is_app_frame and str2bool are translated from source on every run (coq/gen/PFrames.v, PTruth.v) and proved equal to the model's.",
+             "generated environments (deep.config re-imported each time) and comparing inside Coq. Tie T2: ConfigService.__getattribute__ (the resolution itself: own attribute, code-supplied map, deep.config with functions called, DEEP_ variable as text), is_app_frame and str2bool are translated from source on every run (coq/gen/PResolve.v, PFrames.v, PTruth.v) and proved equal to the model's.",
         note="Trusted: Coq kernel+VM; harness; settings restricted to None/text/small naturals/bools/lists/functions; "
              "POLL_TIMER texts are decimal integers; ASCII lower-casing; prefixes contain no comma.",
         design="5-C19"),
@@ -298,9 +298,9 @@ def main():
                  serves_properties=["C01", "C14", "C20"], kind_free_text="exception-flow language with verified may-escape / return-path / loop analyses; skeletons regenerated from the Python source by a fail-closed ast translator on every run; fault injection"),
             dict(name="E6-wire", path="coq/theories/Wire.v coq/theories/WireProofs.v coq/gen/WireMap.v harness/translate/wiremap.py harness/props/c08.py",
                  serves_properties=["C08"], kind_free_text="records as finite maps, table-driven conversion, losslessness law; tables regenerated from the converter functions; serialise/parse oracle"),
-            dict(name="E7-translated-functions", path="harness/translate/pure.py coq/theories/PureSupport.v coq/gen/PLimits.v coq/gen/PMatch.v coq/gen/PCollect.v coq/gen/PChildren.v coq/gen/PRender.v coq/gen/PSelect.v coq/gen/PEvent.v coq/gen/PTruth.v coq/gen/PGate.v coq/gen/PTable.v coq/gen/PFrames.v coq/gen/PStore.v coq/gen/PService.v coq/gen/PRegistry.v coq/gen/PCallbacks.v coq/gen/PMetrics.v coq/gen/PHooks.v coq/gen/PSpans.v coq/theories/TieSpans.v coq/theories/TieLimits.v coq/theories/TieMatch.v coq/theories/TieCollect.v coq/theories/TieTraverse.v coq/theories/TieRoot.v coq/theories/TieNames.v coq/theories/TieChildren.v coq/theories/TieRender.v coq/theories/TieSelect.v coq/theories/TieEvent.v coq/theories/TieEventHit.v coq/theories/TieTruth.v coq/theories/TieGate.v coq/theories/TieHit.v coq/theories/TieTable.v coq/theories/TieFrames.v coq/theories/TieStore.v coq/theories/TieService.v coq/theories/TieRegistry.v coq/theories/TieCallbacks.v coq/theories/TieMetrics.v coq/theories/TieHooks.v tools/mutate_pure.py",
+            dict(name="E7-translated-functions", path="harness/translate/pure.py coq/theories/PureSupport.v coq/gen/PLimits.v coq/gen/PMatch.v coq/gen/PCollect.v coq/gen/PChildren.v coq/gen/PRender.v coq/gen/PSelect.v coq/gen/PEvent.v coq/gen/PTruth.v coq/gen/PResolve.v coq/gen/PGate.v coq/gen/PTable.v coq/gen/PFrames.v coq/gen/PStore.v coq/gen/PService.v coq/gen/PRegistry.v coq/gen/PCallbacks.v coq/gen/PMetrics.v coq/gen/PHooks.v coq/gen/PSpans.v coq/theories/TieSpans.v coq/theories/TieLimits.v coq/theories/TieMatch.v coq/theories/TieCollect.v coq/theories/TieTraverse.v coq/theories/TieRoot.v coq/theories/TieNames.v coq/theories/TieChildren.v coq/theories/TieRender.v coq/theories/TieSelect.v coq/theories/TieEvent.v coq/theories/TieEventHit.v coq/theories/TieTruth.v coq/theories/TieResolve.v coq/theories/TieGate.v coq/theories/TieHit.v coq/theories/TieTable.v coq/theories/TieFrames.v coq/theories/TieStore.v coq/theories/TieService.v coq/theories/TieRegistry.v coq/theories/TieCallbacks.v coq/theories/TieMetrics.v coq/theories/TieHooks.v tools/mutate_pure.py",
                  serves_properties=["C02", "C03", "C04", "C05", "C07", "C10", "C11", "C12", "C13", "C14", "C15", "C17", "C18", "C19", "C20"],
-                 kind_free_text="57 functions of the agent translated statement by statement into Gallina on every run by a fail-closed Python-ast translator and proved equal to the functions of the hand-written models; property theorems stated over the translated code"),
+                 kind_free_text="58 functions of the agent translated statement by statement into Gallina on every run by a fail-closed Python-ast translator and proved equal to the functions of the hand-written models; property theorems stated over the translated code"),
             dict(name="E4-stores", path="coq/theories/Attrs.v coq/theories/AttrsProofs.v coq/theories/Config.v harness/props/c18.py harness/props/c19.py",
                  serves_properties=["C18", "C19"], kind_free_text="Gallina models of the attribute store, resources, configuration resolution; proofs; in-Coq correspondence"),
         ],
